@@ -538,8 +538,8 @@ pub mod ast {
 //@ lift crates/air-lib/air-parser/src/ast/instruction_arguments.rs :: enum CallOutputValue
 //@ derive
 //@ end
-    pub struct ApArgument<'i> { pub ph: PhantomData<&'i u8> }
-    pub struct StreamMapKeyClause<'i> { pub ph: PhantomData<&'i u8> }
+    pub struct ApArgument<'i> { pub opaque_payload: u64, pub ph: PhantomData<&'i u8> }
+    pub struct StreamMapKeyClause<'i> { pub opaque_payload: u64, pub ph: PhantomData<&'i u8> }
 //@ lift crates/air-lib/air-parser/src/ast/instructions.rs :: struct Ap
 //@ derive
 //@ end
@@ -559,7 +559,7 @@ pub mod ast {
 use ast::CallOutputValue;
 
 // ---------------------------------------------------------------- shim: the context's other sub-objects (trusted, opaque)
-pub struct Scalars<'i> { pub ph: PhantomData<&'i u8> }
+pub struct Scalars<'i> { pub opaque_payload: u64, pub ph: PhantomData<&'i u8> }
 impl<'i> Scalars<'i> {
     #[verifier::external_body]
     pub fn set_scalar_value(&mut self, name: &str, value: ValueAggregate) -> ExecutionResult<bool> { unimplemented!() }
